@@ -638,3 +638,97 @@ func noIdentityComparisonOfScriptValues(c *core.Ctx) {
 	}
 	c.Stat("object_comparisons", n)
 }
+
+// nilBeliefAcrossCallSites (C03-R8): within one parser function, the result of a
+// parse helper is not tested for nil at one call site and stored into the tree
+// untested at another.  The first element of a list was checked, the following
+// ones were appended as they came: `[1, (⏎))]` put a nil expression into the
+// AST and the compiler dereferenced it outside any recover.
+func nilBeliefAcrossCallSites(c *core.Ctx) {
+	p := c.P
+	n := 0
+	for _, fn := range repoFns(p, "parser") {
+		type site struct {
+			call    *ssa.Call
+			checked bool
+			stored  token.Pos
+		}
+		byCallee := map[*ssa.Function][]*site{}
+		for _, b := range fn.Blocks {
+			for _, in := range b.Instrs {
+				call, ok := in.(*ssa.Call)
+				if !ok {
+					continue
+				}
+				cal := call.Call.StaticCallee()
+				if cal == nil || !core.RepoFunc(cal) || cal.Signature.Results().Len() != 1 {
+					continue
+				}
+				switch cal.Signature.Results().At(0).Type().Underlying().(type) {
+				case *types.Interface, *types.Pointer:
+				default:
+					continue
+				}
+				s := &site{call: call}
+				// uses
+				var visit func(v ssa.Value, depth int)
+				visit = func(v ssa.Value, depth int) {
+					if depth > 3 || v.Referrers() == nil {
+						return
+					}
+					for _, r := range *v.Referrers() {
+						switch x := r.(type) {
+						case *ssa.BinOp:
+							if k, isC := x.Y.(*ssa.Const); isC && k.IsNil() {
+								s.checked = true
+							}
+							if k, isC := x.X.(*ssa.Const); isC && k.IsNil() {
+								s.checked = true
+							}
+						case *ssa.Store:
+							if x.Val == v {
+								if _, isIdx := x.Addr.(*ssa.IndexAddr); isIdx {
+									s.stored = x.Pos()
+								}
+							}
+						case *ssa.Phi:
+							visit(x, depth+1)
+						case *ssa.ChangeInterface:
+							visit(x, depth+1)
+						case *ssa.MakeInterface:
+							visit(x, depth+1)
+						case *ssa.TypeAssert:
+							if x.CommaOk {
+								s.checked = true // a failed assertion is handled
+							}
+						}
+					}
+				}
+				visit(call, 0)
+				byCallee[cal] = append(byCallee[cal], s)
+			}
+		}
+		for cal, ss := range byCallee {
+			anyChecked := false
+			for _, s := range ss {
+				if s.checked {
+					anyChecked = true
+				}
+			}
+			if !anyChecked || len(ss) < 2 {
+				continue
+			}
+			k := 0
+			for _, s := range ss {
+				k++
+				if s.stored == token.NoPos {
+					continue
+				}
+				n++
+				c.Check(s.checked, core.SSAName(fn)+"|"+cal.Name()+"#"+itoa(k)+"|stored-after-nil-test", p.Pos(s.call.Pos()),
+					fn.Name()+" tests the result of "+cal.Name()+" for nil at another call site; here it stores the result into a list as it comes ("+p.Pos(s.stored)+"): a nil expression reaches the tree without a parse error")
+			}
+		}
+	}
+	c.Stat("stored_results_judged", n)
+}
